@@ -82,15 +82,17 @@ CLAIMS['C12'] = dict(category='exploration', ref='8 C12', text=_CLIENT_TEXT % "T
 CLAIMS['C20'] = dict(category='exploration', ref='8 C20', text=_CLIENT_TEXT % "Theorems: under construction.",
                      technique="Lean 4 executable model + reference specification, differential correspondence; proofs in progress")
 
+_REFINE_FWD = " REFINEMENT: see C01 (`Broker_refines_spec`, side condition okEv, relation R, `Accepts`)."
 CLAIMS['C02'] = dict(category='proof', ref='5 Core E, 8 C02',
-    text=_BROKER_TEXT % ("Theorems (21, all states satisfying the proved invariant BInv / all histories): exactly one PUBACK per QoS 1 PUBLISH and one "
+    text=_BROKER_TEXT % ("Theorems (22, all states satisfying the proved invariant BInv / all histories): exactly one PUBACK per QoS 1 PUBLISH and one "
         "hand-over per PUBLISH received (C02_qos1); a QoS 2 PUBLISH is answered by exactly PUBREC and nothing is handed on at PUBLISH time, a "
         "repeated identifier keeps the first content (C02_qos2_publish); PUBREL hands over the released prefix and is answered by exactly one "
         "PUBCOMP, last (C02_pubrel, C02_releaseAll), PUBREC by exactly PUBREL (C02_pubrec); exactly-once conservation over any history of any "
         "connections sharing a session: handed ++ still open = opened, in order (C02_exactly_once, C02_handed_is_output), eager release "
         "(C02_release_eager), other events do not touch the queue (C02_queue_frame); the QoS 2 queue is the FIFO of C13 "
         "(C02_pub2in_is_fifo/_is_ackqueue); persistence across reconnects of CleanSession=0 sessions (C02_persist, C02_resume, C02_clean_start). "
-        "The client role is tied by the client correspondence runs (its theorems are under C12/C20).") +
+        "C02_refines_reference: after any admitted history the reference broker's open exchanges are the image of the model's queue, PUBREC/PUBCOMP and the hand-overs on PUBREL are those it demands. "
+        "The client role is tied by the client correspondence runs (its theorems are under C12/C20).") + _REFINE_FWD +
         " PARTIAL: content isolation from ring-buffer reuse is a memory-aliasing fact the pure model cannot exhibit; it is covered by the "
         "correspondence (payloads compared byte for byte after intervening traffic), not by a theorem.")
 
@@ -106,52 +108,69 @@ _PARTIAL_SCHED = (" PARTIAL: theorems are about the sequential model (one event 
                   "decidable hypothesis `good` (no empty level: exactly the open finding B3, whose full statements are kept beside proved "
                   "counterexamples and whose witnesses are replayed on the real code on every run; and not beginning with '$': such topics are "
                   "outside the properties' quantifier, the store turns them away and the oracle leaves events naming them open).")
+_REFINE = (" REFINEMENT (Proofs/BrokerRefine*.lean, `Broker_refines_spec`): one theorem for all histories - under the abstraction relation R (trie entries = "
+           "the reference broker's held list, retained trie = its retained messages, live sessions/connections = its connection records incl. will, "
+           "CleanSession, open inbound QoS 2 exchanges and Session.topics, stored CleanSession=0 sessions = its stored map, no overlap) every event admitted by the "
+           "decidable side condition okEv (topic/filter arguments `good` - no empty level: finding B3, no leading '$' -; PUBLISH topic a valid name, QoS <= 2, "
+           "identifier unless QoS 0; a first packet arrives on a connection number that is not live and below cbBase, an accepted CONNECT with a supplied client id "
+           "meets no live connection with that id - the specification leaves everything open after such an overlap - and its will topic is a good valid name; "
+           "in-process callbacks have ids >= cbBase) takes related states to related states and the model's output lies in the set the reference broker's output "
+           "describes (`Accepts`, Spec/BrokerAccepts.lean: the Lean counterpart of the differential oracle broker_oracle/match_group, never weaker); CONNECT of a "
+           "resumed session and connection end (will, unsubscribe-all, stored session) included; non-vacuity: a 17-event history with two clients, wildcard "
+           "subscription, retained publish, QoS 2 exchange, will on close, persistent-session reconnect, in-process API, refused first packet and an anonymous "
+           "client, admitted by `decide`.")
 CLAIMS['C01'] = dict(category='proof', ref='5 Core E, 8 C01', text=_BROKER_TEXT % (
-    "Theorems (10): exact ordered outputs of the live fan-out incl. the in-place message mutation - RETAIN cleared once before the loop for connections and "
+    "Theorems (11): exact ordered outputs of the live fan-out incl. the in-place message mutation - RETAIN cleared once before the loop for connections and "
     "in-process callbacks alike, restored after it (C01_fanout_char on fanoutLive, C01_fanout_loop on the bare loop, C01_fanout_ids); onPublish delivers to "
     "exactly one copy per trie entry whose filter matches under section 4.7, at min(publish QoS, granted QoS), same topic, identical payload, and to "
     "nobody else (C01_publish_reaches_matching_partial, _reachable_partial without the liveness hypothesis, C01_publish_held_partial / "
     "C01_nobody_else_partial in terms of the reference broker's held list); after any history (C01_after_history_partial); after a connection end "
-    "nothing is forwarded to it (C01_connection_end_partial); B3 counterexample (C01_publish_held_full_counterexample).") + _PARTIAL_SCHED +
-    " Not carried through: the held-list abstraction across CONNECT of a resumed session and connection end (stated at trie level instead).")
+    "nothing is forwarded to it (C01_connection_end_partial); B3 counterexample (C01_publish_held_full_counterexample). C01_refines_reference: after ANY "
+    "admitted history (resumed sessions and connection ends included) a PUBLISH hands every addressee exactly one copy per matching subscription the reference "
+    "broker holds for it, at min(publish, granted) QoS, RETAIN=0, and nothing to anybody else.") + _REFINE + _PARTIAL_SCHED)
 CLAIMS['C07'] = dict(category='proof', ref='5 Core E, 8 C07', text=_BROKER_TEXT % (
-    "Theorems (17): exactly one SUBACK, first, same id, one code per filter in request order = min(requested, maximum) or 0x80, everything after it is a "
+    "Theorems (18): exactly one SUBACK, first, same id, one code per filter in request order = min(requested, maximum) or 0x80, everything after it is a "
     "PUBLISH to the subscriber (C07_suback_shape); codes equal the reference broker's for EVERY filter that does not begin with '$', empty levels and the empty filter included (C07_codes_spec_full_holds - the full statement, true since the repair of B6: the store accepts exactly the valid filters, Proofs.Topics.levels_ok / entryLevels_ok; C07_codes_spec_partial is its corollary; 'a/$b' and '+/$b' are granted since the repair of B4: C07_codes_dollar_level; the empty filter gets 0x80 on both sides: C07_codes_empty_filter); "
     "UNSUBSCRIBE answered by exactly one UNSUBACK (C07_unsuback); effect on the trie, other subscribers untouched (C07_subscribe_effect, "
     "C07_unsubscribe_effect, C07_granted_is_held); a matching PUBLISH accepted after the SUBACK is forwarded, none after the UNSUBACK "
     "(C07_effective_after_suback_partial, C07_none_after_unsuback_partial); the held list of the reference broker is maintained (C07_held_refines_partial, "
-    "_srv_partial; B3 counterexample); regenerated maximum QoS = specification's (C07_facts_maxQos); invariant preserved by every step (C07_inv_step/_run).") + _PARTIAL_SCHED)
+    "_srv_partial; B3 counterexample); regenerated maximum QoS = specification's (C07_facts_maxQos); invariant preserved by every step (C07_inv_step/_run). "
+    "C07_refines_reference: after any admitted history SUBACK (first, the reference broker's codes) / UNSUBACK (only output) and afterwards the trie holds exactly the reference broker's held list.") + _REFINE + _PARTIAL_SCHED)
 CLAIMS['C08'] = dict(category='proof', ref='5 Core E, 8 C08', text=_BROKER_TEXT % (
-    "Theorems (19): every PUBLISH forwarded by onPublish/fanoutLive (any step other than a SUBSCRIBE) to a connection and every live forward handed to an "
+    "Theorems (20): every PUBLISH forwarded by onPublish/fanoutLive (any step other than a SUBSCRIBE) to a connection and every live forward handed to an "
     "in-process callback (any step other than its own Server.Subscribe) carries RETAIN=0 (C08_forward_retain_zero, _all, C08_fanout_retain_zero, "
     "C08_step_retain_zero); an in-process subscriber sees RETAIN=0 on a live forward and RETAIN=1 on the retained delivery at subscription time "
     "(C08_callback_retain; E10, repaired by 4cf3ecf); the retain step stores / "
     "replaces / clears exactly that topic (C08_retain_step_partial, C08_one_per_topic_partial, C08_other_topics_untouched_partial, C08_retained_untouched); "
     "the store is the last non-empty retained publish per topic (C08_spec_most_recent, C08_retain_refines_partial, C08_history_partial); after the SUBACK, "
     "per granted filter in request order, exactly the stored messages matching it, RETAIN=1, QoS min(stored, granted), payload as stored "
-    "(C08_subscribe_delivers_retained, _partial, C08_subscribe_retained_spec_partial), same for in-process subscribers (C08_srvSub_*); B3 counterexamples.") + _PARTIAL_SCHED +
+    "(C08_subscribe_delivers_retained, _partial, C08_subscribe_retained_spec_partial), same for in-process subscribers (C08_srvSub_*); B3 counterexamples. "
+    "C08_refines_reference: after any admitted history the retained trie is the reference broker's store and the deliveries after a SUBACK are exactly (as a multiset, DUP/id free) the messages it demands, RETAIN=1.") + _REFINE + _PARTIAL_SCHED +
     " Byte identity of payloads across ring reuse and retained updates concurrent to subscriptions are memory/race facts outside the pure model (correspondence / C18).")
 CLAIMS['C09'] = dict(category='proof', ref='5 Core E, 8 C09', text=_BROKER_TEXT % (
-    "Theorems (18): DISCONNECT emits only the close, nothing is published, later events for the connection are silent (C09_disconnect_no_will, "
+    "Theorems (19): DISCONNECT emits only the close, nothing is published, later events for the connection are silent (C09_disconnect_no_will, "
     "C09_disconnect_after_history); an abnormal end emits the close followed by exactly the fan-out of the will, once (C09_will_published_once, "
     "C09_no_will_no_publish, C09_stopBase); after an accepted CONNECT, fresh or resumed, the session's will is THIS CONNECT's (topic, payload, QoS, "
     "retain) (C09_will_is_current_connect, C09_initWill_fields, C09_current_will_published, C09_will_of_own_connect over quiet histories); no other event "
-    "reads a will (C09_only_stop_reads_will, C09_stop_reads_will_only_with_flag, C09_will_kept_step); invariant (C09_inv).") + _PARTIAL_SCHED +
+    "reads a will (C09_only_stop_reads_will, C09_stop_reads_will_only_with_flag, C09_will_kept_step); invariant (C09_inv). "
+    "C09_refines_reference: after any admitted history DISCONNECT publishes nothing and any other end publishes exactly the will of the connection's own CONNECT (the reference broker's record), accepted by its fan-out.") + _REFINE + _PARTIAL_SCHED +
     " Keep-alive expiry as a cause is an event of the model; its timing is C19. With two live connections under one client id the will statement is false of the code (hypothesis `quiet`).")
 CLAIMS['C10'] = dict(category='proof', ref='5 Core E, 8 C10', text=_BROKER_TEXT % (
-    "Theorems (16): SessionPresent=1 iff CleanSession=0, non-empty id and the store holds a session kept from a CleanSession=0 connection "
+    "Theorems (17): SessionPresent=1 iff CleanSession=0, non-empty id and the store holds a session kept from a CleanSession=0 connection "
     "(C10_session_present); a clean CONNECT starts from a fresh empty session, tries unchanged (C10_clean_starts_empty); after a clean session ends the "
     "store no longer maps its id (C10_clean_discarded), a persistent one stays with its topics and open QoS 2 exchanges (C10_persistent_kept); on resume the "
     "topic store is the re-subscription of the kept list and every kept entry answers the subscriber lookup for matching names (C10_resume_resubscribes, "
     "C10_resume_trie via C06 smatch_char); a CONNECT under id X changes neither store entry nor session of Y != X (C10_keyed_by_id); trie well-formed in "
-    "every reachable state (C10_trie_wf_reachable); regenerated constants = specification's (C10_facts).") + _PARTIAL_SCHED +
+    "every reachable state (C10_trie_wf_reachable); regenerated constants = specification's (C10_facts). "
+    "C10_refines_reference: after any admitted history an accepted CONNECT is answered CONNACK 0 with SessionPresent = (CleanSession=0 and the reference broker stores a session for the id), and the trie then holds the reference broker's held list incl. the resumed subscriptions.") + _REFINE + _PARTIAL_SCHED +
     " Overlapping client ids (two live connections, no take-over) are left open by the specification from the overlapping CONNECT on.")
 CLAIMS['C11'] = dict(category='proof', ref='5 Core E, 8 C11', text=_BROKER_TEXT % (
-    "Theorems (14): CONNACK 0 is emitted exactly when the reference refusal list is empty; otherwise the state is unchanged and the answer is a silent close "
+    "Theorems (15): CONNACK 0 is emitted exactly when the reference refusal list is empty; otherwise the state is unchanged and the answer is a silent close "
     "with 'malformed' among the reasons or a code k!=0 with k among them (C11_table, C11_accept_iff, C11_checks_are_spec); precedence of the code's checks "
     "(C11_precedence_*); exactly one CONNACK for a CONNECT that passes the flag checks, none otherwise (C11_one_connack, C11_not_connect); a refused first "
     "packet and any further events on a connection that was never accepted leave the state unchanged and address only that connection "
-    "(C11_refused_no_effect, C11_unaccepted_no_effect, C11_dead_noop); regenerated protocol versions = specification's (C11_facts_versions).") +
+    "(C11_refused_no_effect, C11_unaccepted_no_effect, C11_dead_noop); regenerated protocol versions = specification's (C11_facts_versions). "
+    "C11_refines_reference: after any admitted history a refused first packet changes neither side and is answered by a close / CONNACK code from the reference broker's list of reasons.") + _REFINE +
     " PARTIAL: first packets are decoded CONNECT field records or typed 'other'/'garbage'; byte-level truncations of CONNECT are C04/C05 (codec model).")
 CLAIMS['C17'] = dict(category='proof', ref='5 Core F, 8 C17',
     text="Lean small-step model of writeMessage under wmu (any number of writers, all schedules): the consumer-visible stream is always the concatenation of whole "
